@@ -69,6 +69,9 @@ CHECKS = {
  "C14": dict(cat="model_checking", tech="TLA+ MC_Codec: TLC enumerates the bounded grammar of typed header values (each AST an initial state) and emits it; each AST is rendered with seeded tokens and pushed through the real decoders/encoders; Trace_Codec (TLC) judges alpha(String(Parse(text))) = Norm(alpha(text)), the fixpoint, and the accessors",
     text="Exhaustive over the bounded grammar (494k ASTs quick / several million thorough; sampled by stride for execution): name-addr and bare addr-spec, display names, sip/sips/tel/urn, user[:password], IPv4/name hosts, ports, URI parameter sequences over {valued, valueless, lr, %-valued}, URI headers incl. empty values, header parameter sequences, Via lists with parameter sequences; each executed through ParseFromSpec/ParseTo/ParseRoute/ParseRecordRoute/ParseNameAddr/ParseAddrSpec/ParseSipURI/ParseVia and a whole Message; random larger values. IPv6 references and user parts with ';' or '?' are generated and reported as KNOWN-FINDING (the property says so).",
     note=TB + "TLC's contribution to the design is small for a codec; the verdict is TLC's on alpha of the real results; the Via default-port normalisation is accepted.", ref="5/C14"),
+ "C08": dict(cat="exploration", tech="TLA+ Robust spec (every partial operation on attacker-controlled values an explicit guarded step, invariant NeverCrash) enumerates hostile field-class combinations; each is sent through real UDP/TCP listeners and the real loop (no recover: a panic ends the driver and is reported with its input), plus seeded byte-level mutation; Trace_Robust judges the sentinel / memory / connection-closure contract",
+    text="Model-directed enumeration: all combinations of at most two hostile fields (15k states; start line, Content-Length incl. 2^31 / 2^62 / negative / non-numeric / larger / smaller, Via incl. '[' / '[]' / empty / huge / 1000 entries / SCTP, Route incl. unsupported transport, From/To/CSeq/Request-URI, 5000 headers / parameters) x request/response x UDP/TCP, executed on proxies with received-support on and off; seeded mutation of a corpus in batches. Judged: process survives, a sentinel request is still relayed after every input (within 5 s), memory allocated <= 256 x bytes + 4 MiB, undecodable TCP input closes its connection.",
+    note=TB + "coverage-guided fuzzing is another technique family and is not used: the arbitrary-byte-string half of the quantifier is covered by seeded mutation only; loopback destinations only.", ref="5/C08"),
 }
 NA_REASON = "check not built yet (work in progress; see DESIGN.md section 9)"
 
